@@ -50,6 +50,29 @@ def replay_case(arg):
             for op, a in hist:
                 if op == 'pre':
                     pass
+                elif op == 'bad':
+                    # PopReconfig!RC_Bad: a call chi must reject, and that must leave the model exactly as it was
+                    before_ = (pop.n_parameters(), list(pop.get_parameter_names()), pop.n_hierarchical_parameters(nids),
+                               list(pop.get_population_model().get_parameter_names()))
+                    try:
+                        if a == 1:
+                            pop.set_dim_names(['D%d' % (k + 1) for k in range(rec['ndim'] + 1)])
+                        elif a == 2:
+                            pop.set_parameter_names(['N%d' % (k + 1) for k in range(pop.n_parameters() + 1)])
+                        else:
+                            pop.set_n_ids(0)
+                        # accepted: whether chi rejects such a call is not a matter of C17, and the specification says nothing
+                        # about the effect of an ACCEPTED call of this kind -- the history leaves the specification here
+                        cnt['invalid_calls_accepted'] = cnt.get('invalid_calls_accepted', 0) + 1
+                        return fails, cnt
+                    except (ValueError, TypeError):
+                        cnt['rejected_calls'] = cnt.get('rejected_calls', 0) + 1
+                    after_ = (pop.n_parameters(), list(pop.get_parameter_names()), pop.n_hierarchical_parameters(nids),
+                              list(pop.get_population_model().get_parameter_names()))
+                    if after_ != before_:
+                        # (what C17 demands is checked below, after every call and at the end against the specification's
+                        # state, which a rejected call leaves unchanged)
+                        cnt['state_changed_by_a_rejected_call'] = cnt.get('state_changed_by_a_rejected_call', 0) + 1
                 elif op == 'nids':
                     pop.set_n_ids(a)
                     nids = a
